@@ -98,3 +98,224 @@ mod c16 {
 
     include!("c16_harnesses.rs");
 }
+
+/// C09: the literal bit codec. `is_of_type` => `as_bits` gives exactly size(T) bits in the documented
+/// layout (big-endian two's complement; aggregates concatenated); decoding any pattern of size(T) bits
+/// yields the value with that layout; anything `is_of_type` accepts denotes a value of T.
+#[cfg(kani)]
+mod c09 {
+    use garble_lang::ast::{Program, Type};
+    use garble_lang::literal::Literal;
+    use garble_lang::token::{SignedNumType, UnsignedNumType};
+    use garble_lang::TypedProgram;
+    use std::collections::HashMap;
+    use std::mem::ManuallyDrop;
+
+    fn rs_stub() -> std::hash::RandomState {
+        // the maps of the harness program stay empty, the keys are never used
+        unsafe { std::mem::transmute([0u64; 2]) }
+    }
+
+    fn empty_program() -> ManuallyDrop<TypedProgram> {
+        ManuallyDrop::new(Program {
+            const_deps: HashMap::new(),
+            const_defs: HashMap::new(),
+            struct_defs: HashMap::new(),
+            enum_defs: HashMap::new(),
+            fn_defs: HashMap::new(),
+        })
+    }
+
+    fn max_unsigned(bits: usize) -> u64 {
+        if bits == 64 { u64::MAX } else { (1u64 << bits) - 1 }
+    }
+
+    /// L1 + L3 for unsigned integers
+    fn enc_unsigned(ty: UnsignedNumType, bits: usize) {
+        let prg = empty_program();
+        let sizes = ManuallyDrop::new(HashMap::new());
+        let n: u64 = kani::any();
+        let lit = ManuallyDrop::new(Literal::NumUnsigned(n, ty));
+        let t = ManuallyDrop::new(Type::Unsigned(ty));
+        if lit.is_of_type(&prg, &t) {
+            kani::cover!(true, "some literal is accepted");
+            // L3: an accepted literal denotes a value of the type (no silent truncation)
+            assert!(n <= max_unsigned(bits));
+            // L1: exactly size(T) bits, big-endian
+            let b = ManuallyDrop::new(lit.as_bits(&prg, &sizes));
+            assert!(b.len() == bits);
+            let mut i = 0;
+            while i < bits {
+                assert!(b[i] == ((n >> (bits - 1 - i)) & 1 == 1));
+                i += 1;
+            }
+        }
+        // the type test refuses every other primitive type
+        let other = ManuallyDrop::new(Type::Bool);
+        assert!(!lit.is_of_type(&prg, &other));
+    }
+
+    /// L1 + L3 for signed integers
+    fn enc_signed(ty: SignedNumType, bits: usize) {
+        let prg = empty_program();
+        let sizes = ManuallyDrop::new(HashMap::new());
+        let n: i64 = kani::any();
+        let lit = ManuallyDrop::new(Literal::NumSigned(n, ty));
+        let t = ManuallyDrop::new(Type::Signed(ty));
+        if lit.is_of_type(&prg, &t) {
+            kani::cover!(true, "some literal is accepted");
+            if bits < 64 {
+                assert!(n >= -(1i64 << (bits - 1)) && n <= (1i64 << (bits - 1)) - 1);
+            }
+            let b = ManuallyDrop::new(lit.as_bits(&prg, &sizes));
+            assert!(b.len() == bits);
+            let mut i = 0;
+            while i < bits {
+                assert!(b[i] == ((n >> (bits - 1 - i)) & 1 == 1));
+                i += 1;
+            }
+        }
+    }
+
+    /// L2 for unsigned integers: every pattern of size(T) bits decodes to the value with that layout
+    fn dec_unsigned<const BITS: usize>(ty: UnsignedNumType) {
+        let prg = empty_program();
+        let sizes = ManuallyDrop::new(HashMap::new());
+        let bits: [bool; BITS] = kani::any();
+        let t = ManuallyDrop::new(Type::Unsigned(ty));
+        let r = ManuallyDrop::new(Literal::from_unwrapped_bits(&prg, &t, &bits, &sizes));
+        let mut want: u64 = 0;
+        let mut i = 0;
+        while i < BITS {
+            want = (want << 1) | (bits[i] as u64);
+            i += 1;
+        }
+        match &*r {
+            Ok(Literal::NumUnsigned(n, t2)) => {
+                assert!(*n == want);
+                assert!(*t2 == ty);
+            }
+            _ => panic!("decoding size(T) bits must yield an unsigned literal"),
+        }
+    }
+
+    fn dec_signed<const BITS: usize>(ty: SignedNumType) {
+        let prg = empty_program();
+        let sizes = ManuallyDrop::new(HashMap::new());
+        let bits: [bool; BITS] = kani::any();
+        let t = ManuallyDrop::new(Type::Signed(ty));
+        let r = ManuallyDrop::new(Literal::from_unwrapped_bits(&prg, &t, &bits, &sizes));
+        let mut raw: u64 = 0;
+        let mut i = 0;
+        while i < BITS {
+            raw = (raw << 1) | (bits[i] as u64);
+            i += 1;
+        }
+        // two's complement value of the BITS-bit pattern
+        let want: i64 = if BITS == 64 {
+            raw as i64
+        } else if bits[0] {
+            (raw as i64) - (1i64 << BITS)
+        } else {
+            raw as i64
+        };
+        match &*r {
+            Ok(Literal::NumSigned(n, t2)) => {
+                assert!(*n == want);
+                assert!(*t2 == ty);
+            }
+            _ => panic!("decoding size(T) bits must yield a signed literal"),
+        }
+    }
+
+    include!("c09_harnesses.rs");
+
+    fn enc_bool_value(lit: Literal, v: bool) {
+        let prg = empty_program();
+        let sizes = ManuallyDrop::new(HashMap::new());
+        let lit = ManuallyDrop::new(lit);
+        let t = ManuallyDrop::new(Type::Bool);
+        assert!(lit.is_of_type(&prg, &t));
+        let b = ManuallyDrop::new(lit.as_bits(&prg, &sizes));
+        assert!(b.len() == 1 && b[0] == v);
+        let other = ManuallyDrop::new(Type::Unsigned(UnsignedNumType::U8));
+        assert!(!lit.is_of_type(&prg, &other));
+    }
+
+    #[kani::proof]
+    #[kani::stub(std::hash::RandomState::new, rs_stub)]
+    #[kani::unwind(4)]
+    fn enc_bool() {
+        // the literal's variant is kept concrete (a symbolic variant makes CBMC explore every arm of as_bits)
+        enc_bool_value(Literal::True, true);
+        enc_bool_value(Literal::False, false);
+    }
+
+    #[kani::proof]
+    #[kani::stub(std::hash::RandomState::new, rs_stub)]
+    #[kani::unwind(4)]
+    fn dec_bool() {
+        let prg = empty_program();
+        let sizes = ManuallyDrop::new(HashMap::new());
+        let bits: [bool; 1] = kani::any();
+        let t = ManuallyDrop::new(Type::Bool);
+        let r = ManuallyDrop::new(Literal::from_unwrapped_bits(&prg, &t, &bits, &sizes));
+        match &*r {
+            Ok(Literal::True) => assert!(bits[0]),
+            Ok(Literal::False) => assert!(!bits[0]),
+            _ => panic!("decoding one bit must yield a bool literal"),
+        }
+    }
+
+    /// ranges: `min..max` is accepted for [T; size] only if it denotes exactly `size` values of T; the type
+    /// test must answer for every (min, max) and never panic. (as_bits of a range builds a Vec of symbolic
+    /// length, which does not get through CBMC; the layout of ranges is covered by the TV identity programs.)
+    fn range(ty: UnsignedNumType, bits: usize, size: usize) {
+        let prg = empty_program();
+        let min: u64 = kani::any();
+        let max: u64 = kani::any();
+        let lit = ManuallyDrop::new(Literal::Range(min, max, ty));
+        let t = ManuallyDrop::new(Type::Array(Box::new(Type::Unsigned(ty)), size));
+        if lit.is_of_type(&prg, &t) {
+            kani::cover!(true, "some range literal is accepted");
+            assert!(min <= max && max - min == size as u64);
+            assert!(max - 1 <= max_unsigned(bits));
+        }
+        let wrong_elem = ManuallyDrop::new(Type::Array(Box::new(Type::Bool), size));
+        assert!(!lit.is_of_type(&prg, &wrong_elem));
+    }
+
+    #[kani::proof]
+    #[kani::stub(std::hash::RandomState::new, rs_stub)]
+    #[kani::unwind(4)]
+    fn range_u8() {
+        range(UnsignedNumType::U8, 8, 2);
+    }
+
+    #[kani::proof]
+    #[kani::stub(std::hash::RandomState::new, rs_stub)]
+    #[kani::unwind(4)]
+    fn range_u16() {
+        range(UnsignedNumType::U16, 16, 3);
+    }
+
+    /// a literal of one primitive type is refused for every other primitive type
+    #[kani::proof]
+    #[kani::stub(std::hash::RandomState::new, rs_stub)]
+    #[kani::unwind(8)]
+    fn typetest_mismatch() {
+        let prg = empty_program();
+        let n: u64 = kani::any();
+        let lit = ManuallyDrop::new(Literal::NumUnsigned(n, UnsignedNumType::U16));
+        for t in [
+            Type::Unsigned(UnsignedNumType::U8),
+            Type::Unsigned(UnsignedNumType::U32),
+            Type::Unsigned(UnsignedNumType::Usize),
+            Type::Signed(SignedNumType::I16),
+            Type::Bool,
+        ] {
+            let t = ManuallyDrop::new(t);
+            assert!(!lit.is_of_type(&prg, &t));
+        }
+    }
+}
